@@ -106,6 +106,9 @@ func ruleC14R1(c *Ctx) {
 			ev := errResult(ci)
 			used := ev != nil && ev.Referrers() != nil && len(*ev.Referrers()) > 0
 			c.Check(used, key, pos, "the error is examined / propagated", "the error result is discarded: an I/O failure here goes unnoticed")
+			if used {
+				c.failureIsNotSuccess(fn, ci, ev, key, pos)
+			}
 		})
 	}
 }
@@ -339,4 +342,85 @@ func ruleC14R3(c *Ctx) {
 			c.Check(guarded, key, c.Pos(in.Pos()), "behind `if config."+fv.Name()+" != nil`", "the optional callback (nil in the default configuration) is called without a nil check: the background goroutine panics on the first error it wants to report")
 		})
 	}
+}
+
+// failureIsNotSuccess: on every path on which the storage call failed, the function must not
+// end by reporting success. Accepted ways to deal with the failure (enumerated from the tree):
+// return a non-nil error; hand the error (or something derived from it) to a channel, to
+// the asynchronous error callback, or to any other call (wrapping, logging, callbacks);
+// store it somewhere; go round a loop again (retry / next candidate: `continue`); or the
+// function has no error result of its own and returns a value that tells failure apart
+// (nil pointer / false). What is rejected: the failing edge joins the success path and the
+// function returns a nil error without the error value having gone anywhere.
+func (c *Ctx) failureIsNotSuccess(fn *ssa.Function, site ssa.CallInstruction, ev ssa.Value, key, pos string) {
+	ei := errorResultIndex(fn.Signature)
+	if ei < 0 || fn.Parent() != nil {
+		return // no error result of its own: reporting is by other means (C14.R2 covers the loops)
+	}
+	const (
+		fFailed uint64 = 1 << iota
+		fDealt
+	)
+	n := site.Common().Signature().Results().Len()
+	sei := errorResultIndex(site.Common().Signature())
+	var problems []string
+	isErr := func(y ssa.Value) bool { return y == ev }
+	ex := &Explorer{Fn: fn, Keep: map[ssa.Value]bool{ev: true}}
+	ex.Outcomes = func(ci ssa.CallInstruction, st *PState) []Outcome {
+		if ci != site {
+			return nil
+		}
+		okR, badR := make([]Tri, n), make([]Tri, n)
+		if n == 1 {
+			okR, badR = []Tri{TriNo}, []Tri{TriYes}
+		} else {
+			okR[sei], badR[sei] = TriNo, TriYes
+		}
+		return []Outcome{{Results: okR, Flags: st.Flags &^ (fFailed | fDealt), Replace: true}, {Results: badR, Flags: st.Flags&^fDealt | fFailed, Replace: true}}
+	}
+	ex.OnInstr = func(in ssa.Instruction, st *PState) bool {
+		if st.Flags&fFailed == 0 || in == site.(ssa.Instruction) {
+			return true
+		}
+		switch x := in.(type) {
+		case *ssa.Send:
+			if dependsOn(x.X, isErr) {
+				st.Flags |= fDealt
+			}
+		case *ssa.Store:
+			if _, isCell := x.Addr.(*ssa.Alloc); !isCell && dependsOn(x.Val, isErr) {
+				st.Flags |= fDealt
+			}
+		case ssa.CallInstruction:
+			for _, a := range x.Common().Args {
+				if dependsOn(a, isErr) {
+					st.Flags |= fDealt
+				}
+			}
+		}
+		return true
+	}
+	ex.OnEdge = func(from, to *ssa.BasicBlock, st *PState) {
+		// going round a loop again after the failure: retry / next candidate
+		if st.Flags&fFailed != 0 {
+			if h := enclosingLoopHeader(site.Block()); h != nil && to == h && naturalLoop(h)[from] {
+				st.Flags |= fDealt
+			}
+		}
+	}
+	ex.OnReturn = func(r *ssa.Return, st *PState) {
+		if st.Flags&fFailed == 0 || st.Flags&fDealt != 0 {
+			return
+		}
+		if ei < len(r.Results) && st.Eval(r.Results[ei]) != TriNo {
+			return
+		}
+		problems = append(problems, "after this call failed the function returns a nil error at "+c.Pos(r.Pos())+" and the error went nowhere")
+	}
+	ex.Run()
+	if ex.Exceeded {
+		c.Undecided(key+" [failure is not reported as success]", pos, "path exploration did not finish")
+		return
+	}
+	c.Check(len(problems) == 0, key+" [failure is not reported as success]", pos, "on the failing edge the function returns an error, hands the error on, or retries", uniqJoin(problems))
 }
